@@ -7,6 +7,7 @@ import (
 	"io"
 	"strconv"
 	"strings"
+	"sync"
 
 	"github.com/tormoder/fit"
 
@@ -198,7 +199,18 @@ var (
 	poolActB, poolLossyB = csdActivity(9, 2, hdr12())
 )
 
+var (
+	opPoolOnce sync.Once
+	opPoolV    []poolOp
+)
+
+// opPool returns the (immutable) call pool; it is built once per process.
 func opPool() []poolOp {
+	opPoolOnce.Do(func() { opPoolV = buildOpPool() })
+	return opPoolV
+}
+
+func buildOpPool() []poolOp {
 	allOpts := func() []fit.DecodeOption {
 		return []fit.DecodeOption{fit.WithLogger(&nullLogger{}), fit.WithUnknownFields(), fit.WithUnknownMessages()}
 	}
@@ -264,6 +276,19 @@ func opPool() []poolOp {
 			return opResult{Text: fmt.Sprintf("err=%v panic=%s bytes=%s", err, pn, vx.Hex(buf.Bytes()))}
 		}},
 	}
+	richA, _ := richStream(byte(fit.FileTypeActivity), 1, 1)
+	richB, _ := richStream(byte(fit.FileTypeActivity), 40, 2)
+	lo, hi := c16TiePair()
+	tie := fitmodel.File(fitmodel.DefaultHeader, append(fitmodel.FileIdRecords(0, 4),
+		fitmodel.Def{Local: 1, Global: hi, Fields: []fitmodel.FieldDef{{Num: 200, Size: 1, Base: fitmodel.Uint8}, {Num: 201, Size: 1, Base: fitmodel.Uint8}}}.Bytes(), fitmodel.Data(1, []byte{1, 2}),
+		fitmodel.Def{Local: 2, Global: lo, Fields: []fitmodel.FieldDef{{Num: 200, Size: 1, Base: fitmodel.Uint8}, {Num: 201, Size: 1, Base: fitmodel.Uint8}}}.Bytes(), fitmodel.Data(2, []byte{3, 4}),
+		fitmodel.Def{Local: 3, Global: 0x0114, Fields: []fitmodel.FieldDef{{Num: 1, Size: 1, Base: fitmodel.Uint8}}}.Bytes(), fitmodel.Data(3, []byte{5}),
+		fitmodel.Def{Local: 4, Global: 0x0214, Fields: []fitmodel.FieldDef{{Num: 1, Size: 1, Base: fitmodel.Uint8}}}.Bytes(), fitmodel.Data(4, []byte{6}))...)
+	pool = append(pool,
+		decodeOp("Decode(activity, every held message type fully populated, value set A)", richA, nil, nil),
+		decodeOp("Decode(activity, every held message type fully populated, value set B)", richB, nil, nil),
+		decodeOp("Decode(unknown fields/messages whose numbers are equal modulo 256, all options)", tie, nil, allOpts),
+	)
 	// every call also reports the digest of the profile tables afterwards
 	for i := range pool {
 		run := pool[i].Run
